@@ -7,6 +7,8 @@
 #[derive(Clone, Copy)] pub struct Triangle { pub a: Point3, pub b: Point3, pub c: Point3 }
 #[verifier::external_body] pub struct TriMesh { _p: [u8; 0] }
 #[verifier::external_body] pub struct UvMapping { _p: [u8; 0] }
+impl Clone for TriMesh { #[verifier::external_body] fn clone(&self) -> (r: TriMesh) ensures r == *self { unimplemented!() } }
+impl Clone for UvMapping { #[verifier::external_body] fn clone(&self) -> (r: UvMapping) { unimplemented!() } }
 pub uninterp spec fn t_area(t: Triangle) -> real;
 pub uninterp spec fn t_normal(t: Triangle) -> Option<UnitVec3>;
 pub uninterp spec fn p_vec(p: Point3) -> Vector3;            // Point3::coords
@@ -42,3 +44,11 @@ pub fn vf_rand_unit() -> (r: f64) ensures 0real <= rv(r) < 1real { unimplemented
 pub fn vf_ok_or_err(x: core::result::Result<usize, usize>) -> (r: usize)
     ensures r == (match x { Ok(i) => i, Err(i) => i })
 { match x { Ok(i) => i, Err(i) => i } }
+// R12 target: `x.sqrt()` as a FUNCTION of x (f64::sqrt is deterministic; the shared assumed spec in prelude/f64.rs only
+// says "some non-negative root", which cannot relate two calls on the same argument)
+pub uninterp spec fn r_sqrt(x: real) -> real;
+#[verifier::external_body]
+pub fn vf_sqrt(x: f64) -> (r: f64)
+    requires rv(x) >= 0real
+    ensures rv(r) == r_sqrt(rv(x)), r_sqrt(rv(x)) >= 0real, r_sqrt(rv(x)) * r_sqrt(rv(x)) == rv(x)
+{ x.sqrt() }
